@@ -20,7 +20,7 @@ type c16 struct{}
 func init() {
 	register(c16{})
 	expectedProbes["C16"] = []string{"document-mutated-after-load", "root-switched-at-same-location", "call-under-refuse-burst", "meta-schema-expanded-between", "fresh-process-reference", "history>=6",
-		"external-document-reloaded", "ref-to-built-in-meta-schema", "entry:ExpandSpec", "entry:ExpandSchema", "entry:ResolveRefWithBase"}
+		"external-document-reloaded", "ref-to-built-in-meta-schema", "package-loader-reassigned-and-used", "entry:ExpandSpec", "entry:ExpandSchema", "entry:ResolveRefWithBase"}
 	SingleOpMain = singleOpMain
 }
 
@@ -172,6 +172,17 @@ func (c16) Gen(r *sim.RNG, tier string, idx int) *Scenario {
 			last.Faults = fs
 		}
 	}
+	// the package-level loader variable is re-assigned at random points of the history
+	tag := 0
+	for i := range sc.Ops {
+		if sc.Ops[i].Mutate != nil {
+			continue
+		}
+		if r.Intn(4) == 0 {
+			tag++
+		}
+		sc.Ops[i].LoaderTag = fmt.Sprintf("L%d", tag)
+	}
 	// every history ends with a meta-schema (the Swagger one costs about a second to expand)
 	if r.Bool(0.4) {
 		sc.Ops = append(sc.Ops, Op{Entry: "MetaSwagger"})
@@ -199,6 +210,7 @@ type singleOpFile struct {
 }
 
 type opDigest struct {
+	Tags     []string `json:"loader_tags,omitempty"`
 	Err      string   `json:"err"`
 	Raw      string   `json:"raw"`
 	Requests []string `json:"requests"`
@@ -207,7 +219,7 @@ type opDigest struct {
 }
 
 func digestOp(res *OpResult) opDigest {
-	d := opDigest{Err: res.ErrText, Raw: string(res.Raw), Panic: res.Out.Panic, OptsSame: res.OptsSame}
+	d := opDigest{Err: res.ErrText, Raw: string(res.Raw), Panic: res.Out.Panic, OptsSame: res.OptsSame, Tags: res.Ctx.LoaderTags}
 	for _, q := range res.Log.Reqs {
 		s := q.URL
 		if q.Fault != "" {
@@ -336,6 +348,9 @@ func (c16) Run(sc *Scenario) *Verdict {
 		}
 		if !res.OptsSame {
 			return v.fail("options-modified", "op %d %s: the caller's options were modified: %s", oi, op.Entry, res.OptsDiff)
+		}
+		if len(res.Ctx.LoaderTags) > 0 && op.LoaderTag != "L0" {
+			v.probe("package-loader-reassigned-and-used")
 		}
 		want, err := freshReference(w, op, key)
 		if err != nil {
